@@ -70,7 +70,7 @@ def check(prop, tier, seed):
     if hit is not None:
         hit["cache_hit"] = True
         return [hit]
-    workdir = os.path.join(C.OUT, "work", key)
+    workdir = os.path.join(C.OUT, "work", "%s_%d" % (key, os.getpid()))
     C.sh(["rm", "-rf", workdir])
     os.makedirs(workdir)
     doms = scripts_for(tier, seed)
